@@ -84,7 +84,12 @@ def run_script(exe, drv, script, timeout=90, env=None):
     e = {"ASAN_OPTIONS": "detect_leaks=1:abort_on_error=0", "UBSAN_OPTIONS": "print_stacktrace=1"}
     if env:
         e.update(env)
-    rc, out, err = vlib.run([exe], inp=script, timeout=timeout, env=e)
+    try:
+        rc, out, err = vlib.run([exe], inp=script, timeout=timeout, env=e)
+    except FileNotFoundError:
+        # the build cache was pruned by a concurrent check of another tree: rebuild (same content hash) and retry
+        exe = vlib.build_harness("dispatch_driver", "tsan" if "/tsan/" in exe else "asan")
+        rc, out, err = vlib.run([exe], inp=script, timeout=timeout, env=e)
     olines = [l for l in out.splitlines() if l.startswith("O ")]
     tlines = [l for l in out.splitlines() if l.startswith("T ")]
     r.olines = olines
